@@ -1303,7 +1303,7 @@ Proof. intros H. rewrite <- map_rev, H. reflexivity. Qed.
     the reader - whether they were pending before (XGROUP SETID moved the cursor back) or
     not, and whoever owned them (with NOACK the pending set is untouched) *)
 Theorem read_new_inv now s g c count noack : SInv s -> GInv g ->
-  let r := st_read_group now s g c sid_max count noack in
+  let r := st_read_group now s g c None count noack in
   fst r = take_count count (filter (p_gt (g_last g)) (s_entries s)) /\
   GInv (snd r) /\
   sorted (fst r) /\ Forall (fun e => sid_lt (g_last g) (fst e)) (fst r) /\
@@ -1312,7 +1312,7 @@ Theorem read_new_inv now s g c count noack : SInv s -> GInv g ->
   (forall id, owner (g_by_id (snd r)) id =
               if negb noack && sid_mem id (map fst (fst r)) then Some c else owner (g_by_id g) id).
 Proof.
-  intros Hs Hg. cbn zeta. unfold st_read_group. rewrite sid_eqb_refl. cbn [negb].
+  intros Hs Hg. cbn zeta. unfold st_read_group. cbv iota.
   rewrite (range_after_spec _ (g_last g) count (inv_sorted s Hs)).
   remember (take_count count (filter (p_gt (g_last g)) (s_entries s))) as es eqn:Hes.
   assert (Hsorted : sorted es) by (subst es; apply sorted_take_count, sorted_filter, (inv_sorted s Hs)).
@@ -1348,10 +1348,10 @@ Qed.
 
 (** ... and while SETID does not move the cursor back, no pending ID is above the cursor *)
 Lemma read_new_below now s g c count noack : SInv s -> GInv g -> BelowCursor g ->
-  BelowCursor (snd (st_read_group now s g c sid_max count noack)).
+  BelowCursor (snd (st_read_group now s g c None count noack)).
 Proof.
   intros Hs Hg Hb. destruct (read_new_inv now s g c count noack Hs Hg) as (_ & H2 & H3 & H4 & H5 & H6 & H7). cbn zeta in *.
-  destruct (st_read_group now s g c sid_max count noack) as [es g1]. cbn [fst snd] in *.
+  destruct (st_read_group now s g c None count noack) as [es g1]. cbn [fst snd] in *.
   destruct (rev es) as [|el rest] eqn:Erev.
   - apply (f_equal (@rev _)) in Erev. rewrite rev_involutive in Erev. cbn [rev] in Erev. rewrite (H5 Erev). exact Hb.
   - pose proof (H6 _ _ eq_refl) as Hl1.
@@ -1370,12 +1370,12 @@ Qed.
 
 (** the batch is a prefix: every present entry between the old and the new cursor is in it *)
 Lemma read_new_complete now s g c count noack : SInv s -> GInv g ->
-  let r := st_read_group now s g c sid_max count noack in
+  let r := st_read_group now s g c None count noack in
   forall e, In e (s_entries s) -> sid_lt (g_last g) (fst e) -> sid_le (fst e) (g_last (snd r)) -> In e (fst r).
 Proof.
   intros Hs Hg. cbn zeta. destruct (read_new_inv now s g c count noack Hs Hg) as (H1 & H2 & H3 & H4 & H5 & H6 & _). cbn zeta in *.
   intros e He Hlt Hle.
-  destruct (rev (fst (st_read_group now s g c sid_max count noack))) as [|el rest] eqn:Erev.
+  destruct (rev (fst (st_read_group now s g c None count noack))) as [|el rest] eqn:Erev.
   - apply (f_equal (@rev _)) in Erev. rewrite rev_involutive in Erev. cbn in Erev.
     rewrite (H5 Erev) in Hle. exfalso. eapply sid_lt_not_le; eassumption.
   - rewrite (H6 _ _ eq_refl) in Hle.
@@ -1386,7 +1386,7 @@ Proof.
     rewrite Hsplit in Hin. apply in_app_or in Hin as [Hin|Hin]; [assumption|exfalso].
     assert (Hsf : sorted (filter (p_gt (g_last g)) (s_entries s))) by (apply sorted_filter, (inv_sorted s Hs)).
     rewrite Hsplit in Hsf. apply sorted_app_inv in Hsf as (_ & _ & Hab).
-    assert (Hel : In el (fst (st_read_group now s g c sid_max count noack))) by (apply in_rev; rewrite Erev; left; reflexivity).
+    assert (Hel : In el (fst (st_read_group now s g c None count noack))) by (apply in_rev; rewrite Erev; left; reflexivity).
     specialize (Hab el e Hel Hin). unfold elt in Hab. eapply sid_lt_not_le; eassumption.
 Qed.
 
@@ -1394,15 +1394,15 @@ Qed.
     with ">"): every returned entry has exactly one owner, the reader - it is in the reader's
     index and in nobody else's *)
 Theorem read_new_single_owner now s g c count : SInv s -> GInv g ->
-  let r := st_read_group now s g c sid_max count false in
+  let r := st_read_group now s g c None count false in
   forall e, In e (fst r) ->
     owner (g_by_id (snd r)) (fst e) = Some c /\
     forall c', In (fst e) (bcg c' (g_by_consumer (snd r))) <-> c' = c.
 Proof.
   intros Hs Hg. cbn zeta. destruct (read_new_inv now s g c count false Hs Hg) as (_ & H2 & _ & _ & _ & _ & H7). cbn zeta in *.
   intros e He.
-  assert (Ho : owner (g_by_id (snd (st_read_group now s g c sid_max count false))) (fst e) = Some c).
-  { rewrite H7. cbn [negb andb]. assert (sid_mem (fst e) (map fst (fst (st_read_group now s g c sid_max count false))) = true) as ->; [|reflexivity].
+  assert (Ho : owner (g_by_id (snd (st_read_group now s g c None count false))) (fst e) = Some c).
+  { rewrite H7. cbn [negb andb]. assert (sid_mem (fst e) (map fst (fst (st_read_group now s g c None count false))) = true) as ->; [|reflexivity].
     apply sid_mem_map_fst. exists e. auto. }
   split; [exact Ho|]. intros c'. rewrite (pi_owner _ _ (ga_pel _ H2)), Ho. split; [intros H; inversion H; reflexivity | intros ->; reflexivity].
 Qed.
@@ -1509,8 +1509,8 @@ Qed.
     and changes nothing but their delivery count and time: pending set, owners, per-consumer
     index, total, bounds and cursor are untouched; the reader is registered as a consumer if
     it was not. *)
-Theorem read_own_spec now s g c after count noack : sid_eqb after sid_max = false -> GInv g ->
-  let r := st_read_group now s g c after count noack in
+Theorem read_own_spec now s g c after count noack : GInv g ->
+  let r := st_read_group now s g c (Some after) count noack in
   let sel := map p_id (take_count count (own_pending_after g c after)) in
   fst r = filter_map (fun id => find_entry id (s_entries s)) sel /\
   GInv (snd r) /\
@@ -1523,7 +1523,7 @@ Theorem read_own_spec now s g c after count noack : sid_eqb after sid_max = fals
   (forall id, pel_find id (g_by_id (snd r))
               = option_map (fun q => if sid_mem id sel then bump now q else q) (pel_find id (g_by_id g))).
 Proof.
-  intros Hne Hg. cbn zeta. unfold st_read_group. rewrite Hne. cbn [negb].
+  intros Hg. cbn zeta. unfold st_read_group. cbv iota.
   destruct (GInv_bound g [] Hg) as (L & HL & _).
   pose proof (redeliver_invX now g c after count L HL) as Hinv.
   unfold g_redeliver_pending in *. cbn [fst snd] in *.
@@ -1571,12 +1571,12 @@ Proof.
 Qed.
 (** the reply as a set and its order: exactly the entries of the stream whose ID is one of
     the selected pending IDs, in ID order *)
-Theorem read_own_entries now s g c after count noack : sid_eqb after sid_max = false -> SInv s -> GInv g ->
-  let r := st_read_group now s g c after count noack in
+Theorem read_own_entries now s g c after count noack : SInv s -> GInv g ->
+  let r := st_read_group now s g c (Some after) count noack in
   let sel := map p_id (take_count count (own_pending_after g c after)) in
   sorted (fst r) /\ forall e, In e (fst r) <-> In e (s_entries s) /\ In (fst e) sel.
 Proof.
-  intros Hne Hs Hg. cbn zeta. destruct (read_own_spec now s g c after count noack Hne Hg) as (H1 & _). cbn zeta in H1.
+  intros Hs Hg. cbn zeta. destruct (read_own_spec now s g c after count noack Hg) as (H1 & _). cbn zeta in H1.
   rewrite H1. pose proof (inv_sorted s Hs) as Hso.
   set (sel := map p_id (take_count count (own_pending_after g c after))).
   assert (Hsel : StronglySorted sid_lt sel).
@@ -1614,7 +1614,7 @@ Definition gstep (s : stream) (g : group) (o : gop) : stream * group * list (byt
   match o with
   | GStream o => (fst (sstep s o), g, [])
   | GRead now c count noack =>
-      match st_read_group now s g c sid_max count noack with
+      match st_read_group now s g c None count noack with
       | (es, g') => (s, g', map (fun e => (c, fst e)) es)
       end
   | GReread now c after count => (s, snd (g_redeliver_pending now g c after count), [])
@@ -1678,7 +1678,7 @@ Proof.
     split; [constructor; constructor|]. split; [apply sid_le_refl|]. split; [constructor|]. split; [assumption|].
     split; [assumption|]. intros e _ H1 H2. exfalso. eapply sid_lt_not_le; eassumption.
   - pose proof (read_new_inv now s g c count noack Hs Hg) as Hr. pose proof (read_new_complete now s g c count noack Hs Hg) as Hc.
-    cbn zeta in Hr, Hc. destruct (st_read_group now s g c sid_max count noack) as [es g1] eqn:Er. cbn [fst snd] in *.
+    cbn zeta in Hr, Hc. destruct (st_read_group now s g c None count noack) as [es g1] eqn:Er. cbn [fst snd] in *.
     destruct Hr as (H1 & H2 & H3 & H4 & H5 & H6 & _). unfold step_facts.
     rewrite map_map. cbn [snd]. change (map (fun x : sentry => fst x) es) with (map fst es).
     assert (Hcur : sid_le (g_last g) (g_last g1) /\ Forall (fun i => sid_le i (g_last g1)) (map fst es) /\ sid_le (g_last g1) (s_last s)).
@@ -1720,7 +1720,7 @@ Proof.
   destruct o as [o|now c count noack|now c after count|ids|now c mi ids f|c|c]; cbn [gstep fst snd].
   - exact Hb.
   - pose proof (read_new_below now s g c count noack Hs Hg Hb) as H.
-    destruct (st_read_group now s g c sid_max count noack). exact H.
+    destruct (st_read_group now s g c None count noack). exact H.
   - pose proof (redeliver_invX now g c after count _ Hc) as H. apply gi_cursor in H.
     unfold BelowCursor. unfold g_redeliver_pending in *. cbn [snd set_byid g_last g_by_id] in *.
     rewrite (proj1 (proj2 (create_consumer_same g c))). exact H.
@@ -2057,9 +2057,20 @@ Qed.
 Theorem read_group_ginv now s g c a count noack : SInv s -> GInv g ->
   GInv (snd (st_read_group now s g c a count noack)).
 Proof.
-  intros Hs Hg. destruct (sid_eqb a sid_max) eqn:E.
-  - apply sid_eqb_eq in E. subst a. apply (read_new_inv now s g c count noack Hs Hg).
-  - apply (read_own_spec now s g c a count noack E Hg).
+  intros Hs Hg. destruct a as [a|].
+  - apply (read_own_spec now s g c a count noack Hg).
+  - apply (read_new_inv now s g c count noack Hs Hg).
+Qed.
+
+(** a read that reports "unchanged" left the group exactly as it was *)
+Lemma read_unchanged now s g c a count noack :
+  st_read_changed now s g c a count noack = false -> snd (st_read_group now s g c a count noack) = g.
+Proof.
+  unfold st_read_changed, st_read_group. destruct a as [a|].
+  - unfold g_redeliver_pending, g_create_consumer. cbn [fst snd]. destruct (amem c (g_consumers g)); cbn [negb orb snd]; [|discriminate].
+    destruct (map p_id _) as [|i l]; [|discriminate]. intros _. cbn [fold_left]. destruct g; reflexivity.
+  - cbv iota. destruct (st_range_after (s_entries s) (g_last g) count) as [|e0 es]; [reflexivity|].
+    destruct noack; cbn [fst]; discriminate.
 Qed.
 
 Lemma resolve_dbg now gn : forall keys ids d acc, DbGInv d -> DbGInv (snd (xreadgroup_resolve now d gn keys ids acc)).
@@ -2067,12 +2078,12 @@ Proof.
   induction keys as [|kf keys IH]; intros ids d acc Hd; cbn [xreadgroup_resolve]; [exact Hd|].
   destruct ids as [|idf ids]; [exact Hd|]. destruct kf; try exact Hd. destruct idf; try exact Hd.
   destruct (get_stream now d b) as [r d1] eqn:Eg. destruct (get_stream_facts _ _ _ _ _ Hd Eg) as [Hd1 _].
-  destruct r; cbn [snd]; try exact Hd1; [|apply IH; exact Hd1].
+  destruct r; cbn [snd]; try exact Hd1.
   repeat (first [ progress cbn [fst snd] | break_match ]); try exact Hd1. apply IH. exact Hd1.
 Qed.
-Lemma deliver_dbg now gn c o : forall reads d acc, DbGInv d -> DbGInv (snd (xreadgroup_deliver now d gn c o reads acc)).
+Lemma deliver_dbg now gn c o : forall reads d acc ms, DbGInv d -> DbGInv (snd (fst (xreadgroup_deliver now d gn c o reads acc ms))).
 Proof.
-  induction reads as [|[k a] reads IH]; intros d acc Hd; cbn [xreadgroup_deliver].
+  induction reads as [|[k a] reads IH]; intros d acc ms Hd; cbn [xreadgroup_deliver].
   - destruct acc; [destruct (ro_block o)|]; exact Hd.
   - destruct (raw_stream d k) as [e s| |] eqn:Er; try (apply IH; exact Hd).
     destruct (raw_stream_facts _ _ _ _ Hd Er) as [Hs Hgs].
@@ -2080,11 +2091,11 @@ Proof.
     pose proof (read_group_ginv now s g c a (ro_count o) (ro_noack o) Hs (Hgs _ _ Eg)) as Hg'.
     destruct (st_read_group now s g c a (ro_count o) (ro_noack o)) as [es g']. cbn [snd] in Hg'.
     assert (Hput : DbGInv (put_group d k e s gn g')) by (apply DbGInv_put_group; assumption).
-    destruct es; [destruct (sid_eqb a sid_max)|]; apply IH; assumption.
+    apply IH. destruct (st_read_changed now s g c a (ro_count o) (ro_noack o)); assumption.
 Qed.
 Theorem xreadgroup_dbg now d parts : DbGInv d -> DbGInv (snd (h_xreadgroup now d parts)).
 Proof.
-  intros Hd. unfold h_xreadgroup.
+  intros Hd. unfold h_xreadgroup, h_xreadgroup_full.
   repeat (first [ progress cbn [fst snd] | break_match ]); try assumption.
   - match goal with H : xreadgroup_resolve ?now ?d ?gn ?ks ?is ?acc = (_, ?d1) |- DbGInv ?d1 =>
       replace d1 with (snd (xreadgroup_resolve now d gn ks is acc)) by (rewrite H; reflexivity); apply resolve_dbg; assumption end.
@@ -2268,8 +2279,8 @@ Proof.
         destruct (expired now e0) eqn:Ex; [discriminate|]. cbn [fst snd] in *. destruct (e_val e0) eqn:Ev; try discriminate.
         inversion Eg; subst. auto. }
       destruct Hlive as (L1 & L2 & L3 & L4).
-      destruct (if beq ib (bs ">") then Some sid_max
-                else if beq ib (bs "0") || beq ib (bs "0-0") then Some sid_zero else sid_of_bytes ib) as [a|].
+      destruct (if beq ib (bs ">") then Some None
+                else if beq ib (bs "0") || beq ib (bs "0-0") then Some (Some sid_zero) else option_map Some (sid_of_bytes ib)) as [a|].
       2:{ intros H; inversion H; subst. split; [exact Hone | intros ? Hr; discriminate]. }
       destruct (alookup gn (s_groups s)) as [g|] eqn:Egn.
       2:{ intros H; inversion H; subst. split; [exact Hone | intros ? Hr; discriminate]. }
@@ -2277,23 +2288,22 @@ Proof.
       * destruct H as [[ks Hks] Hr]. split; [eapply Hchain; exact Hks | exact Hr].
       * apply Forall_app. split; [exact Hacc1|]. constructor; [|constructor]. cbn [fst]. rewrite L4.
         exists e, s. rewrite Egn. repeat split; auto. discriminate.
-    + intros H. apply IH in H; [|exact Hacc1].
-      destruct H as [[ks Hks] Hr]. split; [eapply Hchain; exact Hks | exact Hr].
+    + intros H; inversion H; subst. split; [exact Hone | intros ? Hr; discriminate].
     + intros H; inversion H; subst. split; [exact Hone | intros ? Hr; discriminate].
 Qed.
 
-Lemma deliver_no_error now gn c o : forall reads d acc,
+Lemma deliver_no_error now gn c o : forall reads d acc ms,
   Forall (fun ka => resolved now gn d (fst ka)) reads ->
-  is_error (fst (xreadgroup_deliver now d gn c o reads acc)) = false.
+  is_error (fst (fst (xreadgroup_deliver now d gn c o reads acc ms))) = false.
 Proof.
-  induction reads as [|[k a] reads IH]; intros d acc Hres; cbn [xreadgroup_deliver].
+  induction reads as [|[k a] reads IH]; intros d acc ms Hres; cbn [xreadgroup_deliver].
   - destruct acc; [destruct (ro_block o)|]; reflexivity.
   - inversion Hres as [|? ? Hk Hrest]; subst. cbn [fst] in Hk. destruct Hk as (e & s & H1 & H2 & H3 & H4).
     unfold raw_stream. rewrite H1, H3. destruct (alookup gn (s_groups s)) as [g|] eqn:Eg; [|contradiction].
     assert (Hnext : forall g', Forall (fun ka => resolved now gn (put_group d k e s gn g') (fst ka)) reads).
     { intros g'. eapply Forall_impl; [|exact Hrest]. intros ka Hka. apply resolved_put_group; assumption. }
     destruct (st_read_group now s g c a (ro_count o) (ro_noack o)) as [es g'].
-    destruct es; [destruct (sid_eqb a sid_max)|]; apply IH; auto.
+    apply IH. destruct (st_read_changed now s g c a (ro_count o) (ro_noack o)); auto.
 Qed.
 
 (** A failing XREADGROUP - whichever key, ID or group of a multi-key command is the
@@ -2303,8 +2313,8 @@ Theorem xreadgroup_error_atomic now d parts :
   is_error (fst (h_xreadgroup now d parts)) = true ->
   exists ks, snd (h_xreadgroup now d parts) = expire_keys now ks d.
 Proof.
-  unfold h_xreadgroup.
-  assert (Hsame : forall x : frame, exists ks, snd (x, d) = expire_keys now ks d) by (intros x; exists []; reflexivity).
+  unfold h_xreadgroup, h_xreadgroup_full.
+  assert (Hsame : forall x : frame, exists ks, snd (fst (x, d, @nil bytes)) = expire_keys now ks d) by (intros x; exists []; reflexivity).
   destruct (nparts parts <? 6); [intros _; apply (Hsame r_err)|].
   destruct (negb (is_kw (nth_error parts 1) "GROUP")); [intros _; apply (Hsame r_err)|].
   destruct (nth_arg parts 2) as [gn|]; [|intros _; apply (Hsame r_err)].
@@ -2315,7 +2325,7 @@ Proof.
     as [[err|reads] d1] eqn:E.
   - intros _. cbn [snd]. apply (resolve_facts now gn _ _ _ _ _ _ (Forall_nil _) E).
   - destruct (resolve_facts now gn _ _ _ _ _ _ (Forall_nil _) E) as [_ Hr]. specialize (Hr reads eq_refl).
-    rewrite (deliver_no_error now gn c o reads d1 [] Hr). discriminate.
+    rewrite (deliver_no_error now gn c o reads d1 [] [] Hr). discriminate.
 Qed.
 Theorem xreadgroup_error_no_effect now d parts :
   (forall k e, get_entry d k = Some e -> expired now e = false) ->
